@@ -98,12 +98,12 @@ def configs(tier):
     add("h_cross", "MCA|p2q2", cls="MCA")
     add("h_cross", "MCA|p3q2", cls="MCA", p=3, q=2)
     add("h_cross", "CCA|p2q2", cls="CCA")
-    add("h_cross", "RDA|p2q2", cls="RDA")
     add("h_cross", "CPCCA|alpha=0.5|p2q2", cls="CPCCA", alpha=0.5)
-    add("h_cross", "CPCCA|alpha=[0.5,1.0]|p2q2", cls="CPCCA", alpha=[0.5, 1.0])
     add("h_cross", "ComplexMCA|p2q2", cls="ComplexMCA", cplx=True)
     add("h_cross", "ComplexCCA|p2q2", cls="ComplexCCA", cplx=True, metrics=False)
     if tier == "thorough":
+        add("h_cross", "RDA|p2q2", cls="RDA")
+        add("h_cross", "CPCCA|alpha=[0.5,1.0]|p2q2", cls="CPCCA", alpha=[0.5, 1.0])
         add("h_cross", "CPCCA|alpha=[0.0,0.5]|p2q2", cls="CPCCA", alpha=[0.0, 0.5])
         add("h_cross", "CCA|p3q2", cls="CCA", p=3, q=2, n=5)
         add("h_cross", "MCA|n5p3q3k3", cls="MCA", n=5, p=3, q=3, k=3)
